@@ -198,6 +198,8 @@ pub enum Op {
 pub struct EnvS {
   /// the modulator link is lost while this operation is handled: every call fails, `operations()` and `protocol_name()` too
   pub down: bool,
+  /// the modulator refuses the hand-over announcement of this operation (only drawn for LEAVE and close operations)
+  pub handover_fail: bool,
   pub ev_ok: bool,
   pub verdict: Option<VerdictS>,
   pub auth: Option<AuthS>,
@@ -207,12 +209,15 @@ pub struct EnvS {
 impl EnvS {
   /// membership events may be missing although memberships changed (the modulator refused them or could not be reached)
   pub fn quiet(&self) -> bool {
-    !self.ev_ok || self.down
+    !self.ev_ok || self.down || self.handover_fail
   }
   fn line(&self, owners: &[(String, String)]) -> String {
     let mut s = format!("env evok={}", self.ev_ok as u8);
     if self.down {
       s.push_str(" down=1");
+    }
+    if self.handover_fail {
+      s.push_str(" handover=0");
     }
     if !owners.is_empty() {
       let _ = write!(s, " owners={}", owners.iter().map(|(c, u)| format!("{c}:{u}")).collect::<Vec<_>>().join(","));
@@ -622,6 +627,9 @@ impl Gen {
     let churn = self.mode == "churn" || self.mode == "drift";
     if self.rng.chance(1, if churn && c.phase == 2 { 10 } else { 45 }) {
       self.bump("close");
+      if self.cfg.has_op(Operation::ForwardEvent) && self.rng.chance(1, 8) {
+        env.handover_fail = true;
+      }
       return (Op::Close(k), env);
     }
     let req = match c.phase {
@@ -697,6 +705,9 @@ impl Gen {
       },
       _ => self.authed_req(&mut env, view, c.user.as_deref().unwrap_or("")),
     };
+    if matches!(req, Req::Leave { .. }) && self.cfg.has_op(Operation::ForwardEvent) && self.rng.chance(1, 8) {
+      env.handover_fail = true;
+    }
     (Op::Recv(k, req), env)
   }
 
@@ -941,6 +952,7 @@ pub async fn run_op(
   if let Some(m) = &srv.modulator {
     let mut s = m.script.lock().unwrap();
     s.ev_ok = env.ev_ok;
+    s.handover_ok = !env.handover_fail;
     s.verdict = env.verdict.clone().unwrap_or(VerdictS::Valid);
     // the whole request (its clean-up included, if it ends the connection) finds the modulator unreachable
     s.down = env.down || matches!(env.verdict, Some(VerdictS::Down));
